@@ -234,6 +234,7 @@ def run(run: common.Run):
                 expw = sorted([f'{j}.C' for j in range(njobs)] + [f'{j}.P' for j in range(njobs)])
                 ok = sorted(ws) == expw
             if not ok:
+                case = dict(case, trace_request=line)
                 run.disagree(case, line[:400], rep[:200], 'accept outcome=ok locks=free final=1 writes=<every block once>',
                              what='the observed trace is not a run of the model')
         run.extra['traces_validated_against_impl'] = len(lines)
